@@ -122,33 +122,10 @@ def cluster_select(R):
     """the same property in cluster mode, on a REAL one-node cluster (cluster.json naming the node's raft URL explicitly, as cluster_test/cluster_config3.json does; the shipped
     redis.conf with 16 databases): if the node accepts SELECT of another database at all, a key the selecting connection writes there must be invisible to a fresh connection
     (cluster engine's select probe); a short two-client workload follows"""
-    import os
     from .. import clustersuite
-    binary, err = core.build_harness()
-    if binary is None:
-        return
-    with core.Workdir() as wd0:
-        wd = wd0.lower()
-        os.makedirs(wd, exist_ok=True)
-        try:
-            server, err, dt = clustersuite.build_server(wd)
-            R.oblige("the real server builds from the repository working tree (go build -tags verif .)", "build", server is not None, err or "%.1fs" % dt)
-            if server is None:
-                return
-            reps = clustersuite.run_engine(binary, server, os.path.join(wd, "sel"), R.seed * 1000 + 1, [clustersuite.scenario("q-select-cluster-1", 1, 2, 1200, [])], 120)
-        finally:
-            clustersuite.reap(wd)
-            if wd != wd0:
-                import shutil
-                shutil.rmtree(wd, ignore_errors=True)
-    bad = [r for r in reps if r.get("result") != "ok"]
-    R.oblige("cluster mode (one real node, explicit RaftAddr, 16 configured databases): SELECT of another database is refused, or the selection stays the connection's own",
-             "exploration", len(reps) == 1 and not bad, "; ".join((p.get("kind", "") + ": " + p.get("detail", ""))[:300] for r in bad for p in (r.get("problems") or [])[:2]))
-    for r in bad[:1]:
-        p0 = (r.get("problems") or [dict(kind=r.get("result"), detail="")])[0]
-        R.violation("cluster-select", dict(kind="impl-violates-spec", engine="cluster", summary=("q-select-cluster-1: %s: %s" % (p0.get("kind"), p0.get("detail")))[:800], report=r,
-                                           scenario=clustersuite.scenario("q-select-cluster-1", 1, 2, 1200, []), seed_used=R.seed * 1000 + 1,
-                                           explanation="in cluster mode the selected database is not the connection's own state"))
+    clustersuite.one_node_probe(R, "q-select-cluster-1", R.seed * 1000 + 1,
+                                "cluster mode (one real node, explicit RaftAddr, 16 configured databases): SELECT of another database is refused, or the selection stays the connection's own",
+                                "in cluster mode the selected database is not the connection's own state")
 
 
 def replay(R, payload):
